@@ -161,6 +161,16 @@ def oracle(scn: dict, log: dict) -> list[tuple[str, dict]]:
         if log["max_busy"] > limit:
             fail("limit", f"{log['max_busy']} processors ran at once, worker_limit={limit}")
 
+    # O7 — pending workers are started in the order they were created (no object is overtaken while
+    #      it waits for a slot: the waiting stays "within the worker limit")
+    last_p = -1
+    for i in log["insts"]:          # creation order
+        if i["p_spawn"] is None:
+            continue
+        if i["p_spawn"] < last_p:
+            fail("fifo", f"worker ({i['k']},{i['g']}) was started before a worker that had been enqueued earlier")
+        last_p = max(last_p, i["p_spawn"])
+
     # O3 — nothing lost while the watch is alive
     raised = [c for c in calls if c["end"] == "raised"]
     finished_ok = {c["seq"] for c in calls if c["end"] in ("ok", "raised")}
@@ -383,22 +393,57 @@ def evaluate(scn: dict, policy: str) -> dict:
             "tie_groups": log["tie_groups"], "n_calls": len(log["calls"]), "n_delivered": len(log["delivered"])}
 
 
+_PRIVATE_DRIVER = """-- GENERATED by harness/props/c01.py: the C01 handler alone (used only when the shared Driver.lean cannot run
+-- because another property's driver module is being rebuilt / does not compile at this moment).
+import Kopf.Drv.C01
+open Lean Kopf.Drv
+def respondC01 (line : String) : Json :=
+  match Json.parse line with
+  | .ok (.arr xs) =>
+    match xs.toList with
+    | .str op :: args => (C01.handle op args).getD (.arr #[.str "bad-op"])
+    | _ => .arr #[.str "bad-op"]
+  | _ => .arr #[.str "bad-op"]
+partial def loopC01 (h : IO.FS.Stream) (out : IO.FS.Stream) : IO Unit := do
+  let line ← h.getLine
+  if line.isEmpty then return ()
+  let l := line.trimAscii.toString
+  if l.isEmpty then loopC01 h out else
+  out.putStrLn (respondC01 l).compress
+  loopC01 h out
+def main : IO Unit := do
+  let out ← IO.getStdout
+  loopC01 (← IO.getStdin) out
+  out.flush
+"""
+
+
+def _ask_private(reqs: list) -> list:
+    leanio.write_generated("Kopf/Audit/C01Driver.lean", _PRIVATE_DRIVER)
+    payload = "".join(json.dumps(r, ensure_ascii=False, separators=(",", ":")) + "\n" for r in reqs)
+    p = leanio._run(["lake", "env", "lean", "--run", "Kopf/Audit/C01Driver.lean"], input=payload)
+    if p.returncode != 0:
+        raise leanio.LeanError("private C01 driver failed", p.stdout[-3000:] + p.stderr[-3000:])
+    outs = [json.loads(l) for l in p.stdout.splitlines() if l.startswith("[")]
+    if len(outs) != len(reqs):
+        raise leanio.LeanError(f"private C01 driver answered {len(outs)} of {len(reqs)} requests", p.stderr[-2000:])
+    return outs
+
+
 def _ask(driver: leanio.Driver, reqs: list) -> list:
-    """`Driver.ask`, retried when the shared .olean files are being rebuilt by a concurrent check
-    (the driver runs outside the build lock); the retries wait for the lock."""
+    """`Driver.ask`; when the shared driver cannot run (the .olean of ANOTHER property's driver module is
+    being rebuilt by a concurrent check — the driver runs outside the build lock), retry after waiting
+    for the lock, and finally run the C01 handler through a generated driver that imports Kopf.Drv.C01 only."""
     import time
-    for attempt in range(4):
+    for attempt in range(3):
         try:
-            if attempt == 0:
-                return driver.ask(reqs)
-            with leanio.lake_lock():
-                pass
+            if attempt:
+                with leanio.lake_lock():
+                    pass
             return driver.ask(reqs)
         except leanio.LeanError:
-            if attempt == 3:
-                raise
-            time.sleep(1.5 * (attempt + 1))
-    raise AssertionError
+            time.sleep(1.0 * (attempt + 1))
+    return _ask_private(reqs)
 
 
 def check_traces(results: list[dict], driver: leanio.Driver) -> list[dict]:
@@ -450,7 +495,7 @@ def _shard(args: tuple) -> dict:
             scn = gen_scenario(rng, force)
             for pol in policies:
                 results.append(evaluate(scn, pol))
-        ties = [] if oracle_only else check_traces(results, leanio.Driver())
+        ties = [] if oracle_only else check_traces(results, leanio.Driver(["C01"]))
     except Exception:  # noqa: BLE001
         return {"crash": traceback.format_exc(), "results": [], "ties": []}
     for r in results:
